@@ -200,4 +200,15 @@ let job_frag (job : Sx.t) : string =
   let k = match FreeLower.klower_main lfuel p with
     | Util.Ok _ -> "ok" | Util.Crash -> "crash" | Util.OutOfFuel -> "nofuel" in
   let safe = TSemSafe.safe_program_ok p in
-  Printf.sprintf "(imp %d) (kfree %s) (safe %d)" (if imp then 1 else 0) k (if safe then 1 else 0)
+  let cov = Fragment.covered_program lfuel p in
+  (* optional (inss ..): how many of the inputs are canonical encodings *)
+  let canon = match Sx.try_field job "inss" with
+    | None -> ""
+    | Some f ->
+      let all = Sx.args f in
+      let n = Stdlib.List.length (Stdlib.List.filter (fun one ->
+          let ins = Stdlib.List.map (fun s -> bits_of_string (Sx.bytes s)) (Sx.list one) in
+          TSemSemFull.canonical_main_args p ins) all) in
+      Printf.sprintf " (canon %d %d)" n (Stdlib.List.length all) in
+  Printf.sprintf "(imp %d) (kfree %s) (safe %d) (cov %d)%s" (if imp then 1 else 0) k (if safe then 1 else 0)
+    (if cov then 1 else 0) canon
